@@ -229,6 +229,11 @@ def loss_case(rnd, ncalls, timers, explicit, introspected, dup_cb, local=False):
             got[0].notifyOnDisconnect(first)
             got[0].notifyOnDisconnect(lambda o, r, name=name: ran.append((name + '_second', r)))
             second.append(name + '_second')
+    if len(proxies) >= 2 and rnd.random() < 0.5:
+        # a callback that asks for another proxy while the loss is dispatched: the proxies not visited yet are still told
+        late = []
+        proxies[0][1][0].notifyOnDisconnect(lambda o, r: conn.getRemoteObject('org.e', '/late', iface).addBoth(late.append))
+        what += ', a callback of the first proxy requests a new proxy during the dispatch'
     renamed = {}
     if proxies and rnd.random() < 0.5:
         # the only callback of a proxy is withdrawn and another one registered later: the proxy still counts as interested
